@@ -26,6 +26,8 @@ const modPath = "github.com/boz/kcache"
 
 type Prog struct {
 	rfpMemo map[*ssa.Function]map[*ssa.Parameter]*Term
+	callerIdx map[*ssa.Function][]callSite
+	ownerMemo map[*ssa.Function]map[*ssa.Function]bool
 	Dir   string
 	Fset  *token.FileSet
 	Pkgs  []*packages.Package // repository packages, sorted by path
